@@ -292,8 +292,24 @@ def run_case(ctx, case):
         nontrivial = False
         traces = []
         steps = 0
+        sib = sib_mirror = None
+        if case["seed"] % 6 == 1:
+            # a second dispatcher for the same instance object (and filter object) with its own
+            # history and its own queries, interleaved with the first one
+            from job_shop_lib.dispatching import Dispatcher
+            sib = Run(case["instance"], case.get("filter"), instance=run.instance,
+                      dispatcher=Dispatcher(run.instance,
+                                            ready_operations_filter=run.d.ready_operations_filter))
+            sib_mirror = UnscheduledOperationsObserver(sib.d)
+            ctx.count("histories_with_a_sibling_dispatcher")
         while not run.done():
             ctx.count("states")
+            if sib is not None:
+                if sib.done():
+                    sib.d.reset(); sib.r.reset()
+                o9, m9 = sib.choose(rng, rng.choice(gen.POLICIES))
+                sib.dispatch(o9, m9)
+                query_burst(ctx, sib, sib_mirror, rng, 2, 8)
             traces.append(tuple(query_burst(ctx, run, mirror, rng)))
             if rng.random() < 0.3:
                 check_partitions(ctx, run)
